@@ -597,6 +597,12 @@ def run_big(ctx, spec):
       mon_blockfreq(mon, ns, u, seq, nn, e, data)
       mon_longestruns(mon, ns, seq, nn, e, data)
       mon_rank(mon, ns, seq, nn, e, data)
+      if d == 0 and nn <= 140000:
+        # non-square shapes with both dimensions beyond 30
+        for (r, c) in ((32, 33), (32, 40), (31, 64)):
+          if nn >= 38 * r * c:
+            mon_rank(mon, ns, seq, nn, e, data, r, c, 3)
+            mon.ctx.count('large_nonsquare_rank_shapes')
       mon_universal(mon, ns, seq, nn, e, data)
       if d == 0 and nn >= 387840:
         # a constant initialisation segment followed by random blocks: 63 (or
@@ -803,6 +809,21 @@ def run_tables(ctx, spec):
       if abs(g - float(w)) > 1e-12 + 1e-9 * float(w):
         ctx.violation('rank-distribution-differs', 'RankDistribution(%d,%d,%d)'
                       '[%d] = %r, exact %r' % (r, c, k, i, g, float(w)), None)
+  # the default call (approximations allowed) for shapes around the size
+  # where precomputed square-matrix values take over
+  for (r, c, k) in ((32, 33, 3), (32, 40, 3), (31, 64, 2), (40, 48, 3),
+                    (31, 31, 3), (33, 33, 5), (30, 30, 3), (31, 32, 3),
+                    (64, 64, 2), (6, 8, 3)):
+    got = ns.RankDistribution(r, c, k)
+    want = [nist.rank_probability(r - j, r, c) for j in range(k)]
+    want.append(1 - sum(want))
+    for i, (g, w) in enumerate(zip(got, want)):
+      ctx.count('evaluations')
+      ctx.count('table_entries')
+      ctx.count('rank_distribution_default_calls')
+      if abs(g - float(w)) > 2e-8:
+        ctx.violation('rank-distribution-differs', 'RankDistribution(%d,%d,%d)'
+                      '[%d] = %r, exact %r' % (r, c, k, i, g, float(w)), None)
   # Universal: expected value and variance (Maurer's series)
   src = inspect.getsource(ns.UniversalDistribution)
   for L, ev, var in re.findall(r'(\d+):\s*\(([\d.]+),\s*([\d.]+)\)', src):
@@ -876,7 +897,8 @@ def finalize(agg, tier):
       'OverlappingTemplateMatching', 'Universal', 'UniversalImpl',
       'LinearComplexity', 'Serial', 'ApproximateEntropy', 'CumulativeSums',
       'RandomExcursions', 'RandomExcursionsVariant')]
-  need += ['universal_short_init_segment', 'universal_constant_init_segment',
+  need += ['rank_distribution_default_calls', 'large_nonsquare_rank_shapes',
+           'universal_short_init_segment', 'universal_constant_init_segment',
            'range_checks', 'insufficient_boundary_checks', 'table_entries',
            'walks_with_500_cycles', 'boundary_walks_J500',
            'boundary_walks_J499', 'metamorphic:complement',
